@@ -316,3 +316,48 @@ static void run_e2e(std::istringstream& in) {
   putb(o, "tol", f1.tol); putb(o, "eps", f1.eps);
   puts(o.str().c_str());
 }
+
+// S id shape seed modulus : Impl::Subdivide(edgeDivisions = hash of the edge vector, keepInterior = false)
+// on a tangent-free mesh (no marked quads).  Prints the input triangles, the per-edge edgeAdded the
+// oracle answered, and the triangles Subdivide produced (halfedge_ after its CreateHalfedges).
+static void run_subdiv(std::istringstream& in) {
+  std::string id;
+  int shape, modulus;
+  uint64_t seed;
+  in >> id >> shape >> seed >> modulus;
+  Rng rng(seed);
+  Manifold base = make_shape(shape, rng);
+  auto src = impl_of(base);
+  std::ostringstream o;
+  o << "S " << id;
+  if (base.Status() != Manifold::Error::NoError || src->NumTri() == 0 || src->halfedgeTangent_.size() > 0) {
+    o << " SKIP";
+    puts(o.str().c_str());
+    return;
+  }
+  const uint64_t salt = seed * 11 + 3;
+  o << " NV " << src->NumVert() << " T " << src->NumTri();
+  for (size_t t = 0; t < src->NumTri(); ++t)
+    for (int i = 0; i < 3; ++i) o << " " << src->halfedge_.Start(3 * t + i);
+  std::ostringstream ed;
+  size_t ne = 0;
+  for (size_t h = 0; h < src->halfedge_.size(); ++h) {
+    const int s = src->halfedge_.Start(h), e = src->halfedge_.End(h);
+    if (s < e) {
+      const vec3 v = src->vertPos_[s] - src->vertPos_[e];
+      ed << " " << s << " " << e << " " << hash_div(v, modulus, salt);
+      ++ne;
+    }
+  }
+  o << " A " << ne << ed.str();
+  auto p = std::make_shared<Manifold::Impl>(*src);
+  Vec<Barycentric> vb = p->Subdivide([modulus, salt](vec3 e, vec4, vec4) { return hash_div(e, modulus, salt); }, false);
+  o << " OUT " << p->NumTri();
+  for (size_t t = 0; t < p->NumTri(); ++t)
+    for (int i = 0; i < 3; ++i) o << " " << p->halfedge_.Start(3 * t + i);
+  o << " NV2 " << p->NumVert() << " VB " << vb.size();
+  // owner triangle of every vertex (FillRetainedVerts / edge / interior)
+  o << " OWN";
+  for (size_t v = 0; v < vb.size(); ++v) o << " " << vb[v].tri;
+  puts(o.str().c_str());
+}
